@@ -15,7 +15,7 @@ CLAIMS = {
         text='Deductive proof (Verus) of the real text of the operator DISPATCH layer and the map-free leaves: Add for Function and Mul for Function (all 16 operand-kind pairs: result holds a kind able to carry every term, ids within the operands\' ids, value = sum / product of the operand polynomials minus an explicit epsilon-drop remainder defined per arm), '
              'Add<f64>/Mul<f64> for Linear, Add<f64>/Mul<f64> for Quadratic, Mul<f64> for Polynomial (exact, remainder 0, including the `* 0` short cut), Zero::zero/is_zero, the From conversions into Function, '
              'and the MACRO layer of macros.rs at the Function level (every instance of impl_add_from / impl_add_inverse / impl_mul_from / impl_mul_inverse / impl_sub_by_neg_add in v1_ext/function.rs and impl_neg_by_mul for Function, Linear, Quadratic, Polynomial: each expanded mechanically from the macro definition and proved to compute the sum / product / exact negation / difference of its operands through the dispatch contracts).',
-        note=A1 + 'Linear + Linear, Linear::new, Linear * Linear, Quadratic + Linear, Quadratic + Quadratic, Quadratic::quad_iter, FromIterator<((u64,u64),f64)> for Quadratic and the typed macro instances f64 + Linear, f64 * Linear, Linear - f64, Linear + Quadratic, f64 + Quadratic, f64 * Quadratic are PROVED from the real text; the map-merge ones through the BTreeMap entry API (std contracts of entry/or_default/or_insert/remove/into_iter, prophecy-style): the result is exactly the specified merge (accumulate equal ids or id pairs, drop an entry when |sum| <= EPSILON; FromIterator: last value per pair wins), its remainder is defined as the difference to that merge. Precondition (observation): Quadratic operands are well-formed COO (rows, columns, values of equal length: quad_iter asserts it). Linear * Linear: the quadratic part is exactly the product of the two term lists (nested accumulation loop, nothing dropped), the linear part self*r + c*rhs - r*c is decided through the typed operator contracts, so its remainder is the remainder of that one Linear + Linear. Polynomial + Polynomial is proved as well (map keyed by id lists: model type VMap, rule R28; remainder defined as the difference to the specified merge). PARTIAL: the other BTreeMap-merge leaves (Quadratic*Linear, Quadratic*Quadratic, Polynomial + f64/Linear/Quadratic - which upcast through an epsilon-dropping collect - and the polynomial products) are ASSUMED contracts with an uninterpreted epsilon-drop remainder; the typed macro instances of polynomial.rs (f64/Linear/Quadratic + Polynomial, f64/Linear/Quadratic * Polynomial) and Linear * Quadratic are proved to delegate to those leaves with the operands swapped. The DecisionVariable and Parameter operand families (parameter.rs, v1_ext/decision_variable.rs: From<&P> for Linear, every instance of impl_add_parameter / impl_mul_parameter / impl_add_decision_variable / impl_mul_decision_variable - both operand orders - and the eight hand-written impls between two variables/parameters) are PROVED to compute the typed operator applied to the linear function 1.0 * x_id (existentially named operand `var_lin`). The typed differences (impl_sub_by_neg_add! for Linear - Linear, Quadratic - Linear / f64 / Quadratic, Polynomial - Polynomial) are proved to be the sum with an exact negation of the right operand, and Neg for &DecisionVariable the exact negation of 1.0 * x_id. Still covered only by the bounded stand-in: the term iterators, the From<&P> conversions into Quadratic/Polynomial/Function, the Sum impls (iterator fold).',
+        note=A1 + 'Linear + Linear, Linear::new, Linear * Linear, Quadratic + Linear, Quadratic + Quadratic, Quadratic::quad_iter, FromIterator<((u64,u64),f64)> for Quadratic and the typed macro instances f64 + Linear, f64 * Linear, Linear - f64, Linear + Quadratic, f64 + Quadratic, f64 * Quadratic are PROVED from the real text; the map-merge ones through the BTreeMap entry API (std contracts of entry/or_default/or_insert/remove/into_iter, prophecy-style): the result is exactly the specified merge (accumulate equal ids or id pairs, drop an entry when |sum| <= EPSILON; FromIterator: last value per pair wins), its remainder is defined as the difference to that merge. Precondition (observation): Quadratic operands are well-formed COO (rows, columns, values of equal length: quad_iter asserts it). Linear * Linear: the quadratic part is exactly the product of the two term lists (nested accumulation loop, nothing dropped), the linear part self*r + c*rhs - r*c is decided through the typed operator contracts, so its remainder is the remainder of that one Linear + Linear. Polynomial + Polynomial is proved as well (map keyed by id lists: model type VMap, rule R28; remainder defined as the difference to the specified merge), and so is the chain behind Polynomial * Polynomial: SortedIds::new / into_inner / Add for SortedIds (sorted form of a list, unique: lemma_sorted_perm_eq), the term iterator of &Polynomial (R22), FromIterator<(SortedIds, f64)> for Polynomial (epsilon-dropping collect = kacc of the items) and Mul for Polynomial - the two loops build the EXACT product under canonical keys (ghost map pmat; the weight of an id list is order-independent: lemma_mono_perm), the remainder is what the final collect drops (entries with |v| <= EPSILON). PARTIAL: the other BTreeMap-merge leaves (Quadratic*Linear, Quadratic*Quadratic, Polynomial + f64/Linear/Quadratic - which upcast through the term iterators of Linear / Quadratic - and the products with a Quadratic or Linear operand) are ASSUMED contracts with an uninterpreted epsilon-drop remainder; the typed macro instances of polynomial.rs (f64/Linear/Quadratic + Polynomial, f64/Linear/Quadratic * Polynomial) and Linear * Quadratic are proved to delegate to those leaves with the operands swapped. The DecisionVariable and Parameter operand families (parameter.rs, v1_ext/decision_variable.rs: From<&P> for Linear, every instance of impl_add_parameter / impl_mul_parameter / impl_add_decision_variable / impl_mul_decision_variable - both operand orders - and the eight hand-written impls between two variables/parameters) are PROVED to compute the typed operator applied to the linear function 1.0 * x_id (existentially named operand `var_lin`). The typed differences (impl_sub_by_neg_add! for Linear - Linear, Quadratic - Linear / f64 / Quadratic, Polynomial - Polynomial) are proved to be the sum with an exact negation of the right operand, and Neg for &DecisionVariable the exact negation of 1.0 * x_id. Still covered only by the bounded stand-in: the term iterators, the From<&P> conversions into Quadratic/Polynomial/Function, the Sum impls (iterator fold).',
         technique='contract-based deductive verification (Verus) of mechanically extracted Rust functions; value contracts with explicit remainders; contracts generated from a table of operand kinds',
         ref='DESIGN 6 C02'),
     'C16': dict(
